@@ -333,3 +333,91 @@ def t03(rep, F):
                                 "%s parses block 4 as T without first rejecting a message whose announced type "
                                 "differs from T::message_type()" % b["name"], b["file"], pc.get("ln")))
     return r
+
+
+# ---------------------------------------------------------------------------
+# D2: a failed parse is reported by every consumer of the whole-message parsers
+
+PARSE_ENTRY = ("SwiftParser::parse_auto", "SwiftParser::parse", "SwiftParser::parse_with_errors",
+               "SwiftParser::parse_auto_with_errors")
+
+
+def _must_record(n, vecs):
+    """True when every path through n pushes/extends one of the collections in `vecs`, or leaves the
+    function with an error (return Err / `?` is handled by the caller)."""
+    if isinstance(n, list):
+        return any(_must_record(x, vecs) for x in n)
+    if not isinstance(n, dict):
+        return False
+    k = n.get("k")
+    if k == "block":
+        return any(_must_record(s, vecs) for s in (n.get("stmts") or [])) or _must_record(n.get("expr"), vecs)
+    if k in ("let", "letx", "semi", "stmt"):
+        return _must_record(n.get("init") or n.get("e") or n.get("expr"), vecs)
+    if k == "if":
+        if n.get("else") is None and n.get("els") is None:
+            return _must_record(n.get("cond"), vecs)
+        return _must_record(n.get("cond"), vecs) or (
+            _must_record(n.get("then"), vecs) and _must_record(n.get("else") or n.get("els"), vecs))
+    if k == "match":
+        if _must_record(n.get("e"), vecs):
+            return True
+        arms = n.get("arms") or []
+        return bool(arms) and all(_must_record(a.get("body"), vecs) for a in arms)
+    if k in ("for", "while", "loop", "closure"):
+        return False
+    if k == "ret":
+        e = n.get("e")
+        return isinstance(e, dict) and is_call(e, "Err")
+    if k == "mcall" and n.get("m") in ("push", "extend", "push_str", "insert", "append"):
+        from .facts import place_str
+        if place_str(n.get("recv")) in vecs:
+            return True
+    if k in ("call", "mcall"):
+        return _must_record(n.get("recv"), vecs) or any(_must_record(a, vecs) for a in n.get("args") or [])
+    if k in ("ref", "un", "cast", "try", "paren"):
+        return _must_record(n.get("e"), vecs)
+    return False
+
+
+def d2(rep, F):
+    r = rep.rule("D2", "every match on the result of a whole-message parse (parse_auto / parse::<T>) handles "
+                       "Err so that every path records an error in the function's error collection or returns "
+                       "Err: an unsupported or malformed message is never reported as valid", floor=1)
+    from .facts import place_str
+    for b in F.bodies:
+        if "body" not in b or b.get("exp") or "/tests" in (b.get("file") or ""):
+            continue
+        sites = [n for n in walk(b["body"]) if n.get("k") == "match"
+                 and any(is_call(x, *PARSE_ENTRY) for x in walk(n.get("e") or {}))]
+        if not sites:
+            continue
+        r["analysed"] += 1
+        vecs = set()
+        for n in walk(b["body"]):
+            if n.get("k") == "mcall" and n.get("m") in ("push", "extend"):
+                p = place_str(n.get("recv"))
+                if p and "." not in p:
+                    vecs.add(p)
+        for m in sites:
+            for a in m["arms"]:
+                p = a.get("pat") or {}
+                if not (p.get("path") or "").endswith("Err"):
+                    continue
+                r["instances"] += 1
+                body = a.get("body")
+                inner = [x for x in walk(body) if x.get("k") == "match"]
+                bad = []
+                if not _must_record(body, vecs):
+                    # name the arm of the inner match that records nothing
+                    for im in inner:
+                        for ia in im.get("arms") or []:
+                            if not _must_record(ia.get("body"), vecs):
+                                ip = ia.get("pat") or {}
+                                bad.append((ip.get("path") or ip.get("k") or "?").rsplit("::", 1)[-1])
+                    rep.add(Finding("D2", b["path"], "err-arm:%s" % ",".join(sorted(set(bad)) or ["*"]),
+                                    "a parse failure can leave %s without any recorded error (arms recording "
+                                    "nothing: %s): the message would be reported as valid"
+                                    % (b["path"], sorted(set(bad)) or "the Err arm itself"),
+                                    b["file"], a.get("ln") or m.get("ln")))
+    return r
